@@ -60,6 +60,9 @@ T = {
     "C17": ("file-boundary round-trip monitor per interface (adapters add only format-prescribed headers/comments, never touch numeric or species fields) + exhaustive SI re-derivation of the 17 unit sets + end-to-end 'same physical crystal in every unit system' + fault injection into calculator outputs for create_FORCE_SETS",
             "Held on the executions produced: 15 interfaces x 11 cells (interleaved/grouped/random order, positions outside [0,1), rotated lattices) incl. displaced supercells; all 17 unit entries (exhaustive); 4-8 crystals re-expressed in every unit system with and without NAC; swapped / atom-permuted vasprun.xml refused.",
             "cp2k structure I/O not decidable (cp2k-input-tools absent); CRYSTAL has no same-interface reader for its inputs (harness parser of the .ext block); tolerance from measured printed precision", "3/C17"),
+    "C19": ("linear-map extraction monitor: one-hot standard-normal variates pushed through the real sampler (run(T, randn=...)) give the map A; A A^T vs the canonical covariance from the harness' own diagonalisation of the supercell dynamical matrix; uu, uu.uu_inv, run_d2f; mean-square displacement matrices vs the harness' mode sum on full meshes",
+            "Held on the executions produced: 12 crystals x supercells with and without conjugate q pairs x quantum/classical x T in {0,10,300,2000} x cutoffs; MSD matrices at T in {0,0.7,10,300,2000} incl. a heavy-mass variant that puts h nu ~ kT near 1 K, frequency windows, projections, CIF transform.",
+            "numpy eigh of M^-1/2 Phi M^-1/2 and phonopy.units constants; the same cutoff rule applied to the harness' own spectrum", "3/C19"),
 }
 
 NA_REASON = "check not built yet in this round (runtime-monitoring driver pending); no claim is made"
